@@ -64,7 +64,115 @@ mod verif_c18 {
 '''
 
 
+def acc_modules(tier):
+    """accuracy clauses on reduced-precision grids, oracles from Python decimal (40 digits)"""
+    from decimal import Decimal as D, getcontext
+    from props import curves as CV
+    getcontext().prec = 40
+    thorough = tier == "thorough"
+    out, specs = "", []
+    # powf(x, y): x on the grid, y = every exponent the library uses plus a few generic ones
+    ys = [2.4, 1 / 2.4, 2.2, 1 / 2.2, 2.8, 1 / 2.8, 0.45, 1 / 0.45, 0.15930176, 78.84375, 1 / 78.84375, 1 / 0.15930176] + ([3.0, -2.0, 0.5, 10.0, -7.25] if thorough else [-2.0])
+    import struct
+    f32 = lambda v: struct.unpack("<f", struct.pack("<f", v))[0]
+    g = 8 if thorough else 5
+    xs = [x for x in CV.grid(g, emin=-14) if x > 0] + [1.5, 2.0, 3.0, 10.0, 100.0, 1.0e4, 3.3e-5]
+    for k, y in enumerate(ys):
+        yf = f32(y)
+        pts, want = [], []
+        for x in xs:
+            t = D(x) ** D(yf)
+            if D("1e-35") <= t <= D("1e35"):
+                pts.append(CV.bits_of(x)); want.append(t)
+        tol = 2.5e-4 + 8e-6 * abs(yf)
+        allp, allw = pts, want
+        for cc in range(0, len(allp), 1024):
+          pts, want = allp[cc:cc + 1024], allw[cc:cc + 1024]
+          name = "k_c18_powf_acc_%d_%d" % (k, cc // 1024)
+          out += r'''
+    #[kani::proof]
+    fn %(name)s() {
+        const XS: [u32; %(n)d] = [%(xs)s];
+        const WANT: [f64; %(n)d] = [%(want)s];
+        let in_i: usize = kani::any();
+        kani::assume(in_i < %(n)d);
+        let r = powf(f32::from_bits(XS[in_i]), f32::from_bits(%(ybits)d)) as f64;
+        assert!((r - WANT[in_i]).abs() <= %(tol)s * WANT[in_i], "powf relative error within 2.5e-4 + 8e-6*|y|");
+        kani::cover!(in_i == %(n)d - 1, "last grid point explored");
+    }
+''' % dict(name=name, n=len(pts), xs=", ".join(map(str, pts)), want=", ".join("%.17e" % float(w) for w in want), ybits=CV.bits_of(yf), tol="%.6e" % tol)
+          specs.append(dict(name=name, family="accuracy", timeout=1800, mem_gb=8, replay=replay, fn="powf", args=[], acc=("powf", pts, CV.bits_of(yf)),
+                          obligation="powf(x, %.6g) relative error <= %.3e on the grid" % (yf, tol), sym="x: %d reduced-precision inputs (<= %d mantissa bits, 2^-14..1, and 1.5, 2, 3, 10, 100), symbolic index" % (len(pts), g), covers=["last grid point explored"]))
+    # expf on [-85, 85]
+    step = 0.01 if thorough else 0.1
+    ex = []
+    v = -85.0
+    while v <= 85.0:
+        ex.append(f32(v)); v += step
+    ex += [f32(0.0), f32(1.0), f32(-1.0), f32(0.5), f32(1e-3), f32(-1e-3), f32(33.3), f32(-77.7)]
+    chunk = 1024
+    for c in range(0, len(ex), chunk):
+        sub = ex[c:c + chunk]
+        name = "k_c18_expf_acc_%d" % (c // chunk)
+        out += r'''
+    #[kani::proof]
+    fn %(name)s() {
+        const XS: [u32; %(n)d] = [%(xs)s];
+        const WANT: [f64; %(n)d] = [%(want)s];
+        let in_i: usize = kani::any();
+        kani::assume(in_i < %(n)d);
+        let r = expf(f32::from_bits(XS[in_i])) as f64;
+        assert!((r - WANT[in_i]).abs() <= 1.0e-5 * WANT[in_i], "expf relative error within 1e-5 on [-85,85]");
+        kani::cover!(in_i == %(n)d - 1, "last grid point explored");
+    }
+''' % dict(name=name, n=len(sub), xs=", ".join(str(CV.bits_of(x)) for x in sub), want=", ".join("%.17e" % float(D(x).exp()) for x in sub))
+        specs.append(dict(name=name, family="accuracy", timeout=1800, mem_gb=8, replay=replay, fn="expf", args=[], acc=("expf", [CV.bits_of(x) for x in sub], None),
+                          obligation="expf(x) relative error <= 1e-5", sym="x: %d points of [-85,85] (step %.2f plus a few specials), symbolic index" % (len(sub), step), covers=["last grid point explored"]))
+    # cbrtf within 1 ulp: 2.5-4 s of SAT time per input (f64 Newton iteration)
+    cg = 4 if thorough else 2
+    cx = []
+    for e in (0, 1, 2, -1, -7, 5):
+        for m in range(1 << cg):
+            cx.append((1.0 + m / float(1 << cg)) * 2.0 ** e)
+    cx += [-x for x in cx[:8]]
+    cchunk = 16
+    for c in range(0, len(cx), cchunk):
+        sub = cx[c:c + cchunk]
+        name = "k_c18_cbrtf_acc_%d" % (c // cchunk)
+        def cb(x):
+            a = D(abs(x)); r = a ** (D(1) / D(3))
+            return -r if x < 0 else r
+        out += r'''
+    #[kani::proof]
+    fn %(name)s() {
+        const XS: [u32; %(n)d] = [%(xs)s];
+        const WANT: [f64; %(n)d] = [%(want)s];
+        let in_i: usize = kani::any();
+        kani::assume(in_i < %(n)d);
+        let x = f32::from_bits(XS[in_i]);
+        let r = cbrtf(x);
+        let ulp = (f32::from_bits(r.abs().to_bits() + 1) - r.abs()) as f64;
+        assert!((r as f64 - WANT[in_i]).abs() <= ulp * 1.0000001, "cbrtf within 1 ulp of the true cube root");
+        assert!(cbrtf(-x).to_bits() == (-r).to_bits(), "cbrtf is odd");
+        kani::cover!(in_i == %(n)d - 1, "last grid point explored");
+    }
+''' % dict(name=name, n=len(sub), xs=", ".join(str(CV.bits_of(x)) for x in sub), want=", ".join("%.17e" % float(cb(x)) for x in sub))
+        specs.append(dict(name=name, family="accuracy", timeout=2400, mem_gb=8, replay=replay, fn="cbrtf", args=[], acc=("cbrtf", [CV.bits_of(x) for x in sub], None),
+                          obligation="cbrtf(x) within 1 ulp and odd", sym="x: %d inputs (%d mantissa bits, six exponents, both signs), symbolic index" % (len(sub), cg), covers=["last grid point explored"]))
+    return out, specs
+
+
 def replay(ctx, spec, f):
+    if spec.get("acc"):
+        fn, xs, ybits = spec["acc"]
+        ins = f.get("inputs") or {}
+        if "in_i" not in ins:
+            return {"reproduced": None, "detail": "grid index not found"}
+        i = int(ins["in_i"]["bin"], 2)
+        if i >= len(xs):
+            return {"reproduced": None, "detail": "grid index out of range"}
+        a = [fn, "%x" % xs[i]] + (["%x" % ybits] if ybits is not None else [])
+        return native.replay_native(ctx, "math", a)
     ins = f.get("inputs") or {}
     fn = spec["fn"]
     args = [fn] + ["%x" % int(ins[k]["bin"], 2) for k in spec["args"] if k in ins]
@@ -77,14 +185,16 @@ def replay(ctx, spec, f):
 
 def plan(tier, seed):
     p = Plan()
-    p.modules.append(("src/lib.rs", MOD))
+    acc_txt, acc_specs = acc_modules(tier)
+    p.modules.append(("src/lib.rs", MOD.rstrip().rstrip("}") + acc_txt + "}\n"))
     p.native = False
     p.functions = ["yuvxyb_math::powf / exp2 / log2 / poly5 (yuvxyb-math/src/pow_exp.rs)",
                    "yuvxyb_math::expf (pow_exp.rs:108)", "yuvxyb_math::cbrtf / cbrtf_fast (yuvxyb-math/src/cbrtf.rs)",
                    "yuvxyb_math::multiply_add (mul_add.rs, non-FMA branch)"]
     p.bounds = ["totality: all 2^64 (x,y) of powf, all 2^32 x of expf and cbrtf - no unwinding needed (loop-free)",
                 "expf saturation: every f32 in [89,1e38] and [-1e38,-88]"]
-    p.outside = ["accuracy contracts of powf/expf/cbrtf against x^y, e^x, cbrt: transcendental / f64-Newton oracles are out of reach of bit-blasting (see DESIGN 5.C18)",
+    p.bounds.append("accuracy clauses: reduced-precision input grids only (powf: 12-17 exponents x ~60-500 x values; expf: 77-690 points of [-85,85]; cbrtf: 32-104 inputs), oracles = Python decimal (40 digits)")
+    p.outside = ["accuracy contracts of powf/expf/cbrtf off the grids (the domains are 2^32-2^64 inputs; 0.1-4 s of SAT time per input)",
                  "FMA build (cargo kani compiles the non-FMA branch only)"]
     p.assumptions = ["Kani's checks of to_int_unchecked (float_to_int_unchecked precondition), shifts and casts stand for 'no UB'",
                      "Kani's NaN-production checks are ignored (producing NaN is not a violation)"]
@@ -102,7 +212,7 @@ def plan(tier, seed):
         mk("k_c18_expf_saturates_low", "expf(x) == 0 on [-1e38,-88]", "x: every f32 in [-1e38,-88]", "expf", ["in_x"],
            covers=["large negative argument explored"]),
         mk("k_c18_twin_must_fail", "vacuity twin", "x in [89,1e38]", "expf", ["in_x"], expect_fail="vacuity twin"),
-    ]
+    ] + acc_specs
     return p
 
 
